@@ -98,7 +98,9 @@ static void op_h5rt(int argc, char** a)
 	herr_t e1 = H5Pset_filter(pl, H5Z_FILTER_SZ, H5Z_FLAG_MANDATORY, cdn, cdv);
 	hid_t ds = H5Dcreate2(f, "d", h5type(ty), sp, H5P_DEFAULT, pl, H5P_DEFAULT);
 	herr_t e2 = ds < 0 ? -1 : H5Dwrite(ds, h5type(ty), H5S_ALL, H5S_ALL, H5P_DEFAULT, data);
-	if (ds >= 0) H5Dclose(ds); H5Pclose(pl); H5Sclose(sp); H5Fclose(f);
+	/* chunks are filtered when they leave the chunk cache: a filter failure surfaces in H5Dclose / H5Fclose, not in H5Dwrite */
+	herr_t e4 = ds >= 0 ? H5Dclose(ds) : -1; H5Pclose(pl); H5Sclose(sp); herr_t e5 = H5Fclose(f);
+	if (e2 >= 0 && (e4 < 0 || e5 < 0)) e2 = -2;
 	f = H5Fopen(path, H5F_ACC_RDONLY, H5P_DEFAULT);
 	ds = H5Dopen2(f, "d", H5P_DEFAULT);
 	herr_t e3 = ds < 0 ? -1 : H5Dread(ds, h5type(ty), H5S_ALL, H5S_ALL, H5P_DEFAULT, back);
